@@ -1,6 +1,7 @@
 import HranoModel.Lemmas.Walk
 import HranoModel.Lemmas.Merge
 import HranoModel.Lemmas.Append
+import HranoModel.Lemmas.Tree
 /-!
 C12 — reports compose over the log history.
 
@@ -101,6 +102,23 @@ theorem quantity_additive (a b : List LogDay) (n : Bytes) :
 theorem balance_tree_composes (a b : List LogDay) :
     Tree.build (allElements (a ++ b)) = (allElements b).foldl Tree.addDeep (Tree.build (allElements a)) := by
   simp [Tree.build, allElements_append, List.foldl_append]
+
+theorem prefixSum_append (sep : UInt8) (q : List Bytes) : ∀ a b : Elements,
+    Spec.prefixSum sep q (a ++ b) = Spec.prefixSum sep q a + Spec.prefixSum sep q b
+  | [], b => by simp [Spec.prefixSum, Rat.zero_add]
+  | e :: a, b => by
+    simp only [List.cons_append, Spec.prefixSum]
+    rw [prefixSum_append sep q a b, Rat.add_assoc]
+
+/-- **the balance of the concatenated history is the element-wise sum of the balances of its parts**: at every
+    category path, the amount held by the tree of `a ++ b` is the amount held for `a` plus the amount held for `b` -/
+theorem balance_rows_additive (a b : List LogDay) (q : List Bytes) :
+    Spec.totalAt (Tree.build (allElements (a ++ b))) q
+      = Spec.totalAt (Tree.build (allElements a)) q + Spec.totalAt (Tree.build (allElements b)) q := by
+  have h := fun es => (Spec.build_spec es [] Spec.WFList.nil).2 q
+  simp only [Tree.build] at h ⊢
+  rw [h, h, h, Spec.totalAt_nil, allElements_append, prefixSum_append]
+  simp only [Rat.zero_add]
 
 /-- the lines the scanner delivers for a text without over-long lines -/
 theorem scan_lines_of_fit (s : Bytes) (h : ∀ l ∈ Scanner.rawLines s, l.length < PConst.maxToken) :
